@@ -177,6 +177,7 @@ class _CallPatchX86(_CallPatchImpl):
             )
         else:
             total_stack_size = arg_stack_size
+        total_stack_size += self._cconv.shadow_space
 
         stack_padding = (
             align_address(total_stack_size, self._cconv.stack_alignment)
